@@ -201,6 +201,9 @@ def run_case(case, acc, order):
             prof = []
             for pk in (6, 0, 12, 13):
                 prof.append([float(20 - abs(c - pk)) for c in range(14)])
+            # the dominant template is exactly flat on a channel where the other contributor has signal:
+            # a flat channel is still one of its channels
+            prof[3][10] = 0.0
             spec.update(n_channels=14, geometry='col14', spike_templates=st_w, profile=prof,
                         spike_clusters=[4 if x in (2, 3) else x for x in st_w])
         if case.get('geometry'):
